@@ -208,6 +208,7 @@ class Recorder:
         self.nonexact = 0
         self.closed_calls = []
         self.snapshots = True
+        self.want_extras = bool(scn.get('cfg', {}).get('extras', False))
         self.done_pkgs = set()
         self.want_sweep = None
 
@@ -238,6 +239,19 @@ class Recorder:
 
     def rck(self, strategy, mid, sel):
         return "%s|%s|%s" % (strategy.name, mid, sel)
+
+    def _safe(self, f):
+        try:
+            return self._p(f())
+        except Exception:  # e.g. LimitOrder(size=0.0): size_remaining raises TypeError
+            self.nonexact += 1
+            return -999999
+
+    def _safes(self, f):
+        try:
+            return f()
+        except Exception:
+            return "ERR"
 
     def proj_order(self, o):
         s = o.simulated
@@ -290,11 +304,11 @@ class Recorder:
         """fields used by property formulas only (not part of the modelled state)"""
         s = o.simulated
         return {
-            "rem": self._p(s.size_remaining) if o.order_type.ORDER_TYPE.name == "LIMIT" else 0,
-            "profit": self._p(o.profit) if o.runner_status is not None or True else 0,
+            "rem": self._safe(lambda: s.size_remaining) if o.order_type.ORDER_TYPE.name == "LIMIT" else 0,
+            "profit": self._safe(lambda: o.profit),
             "rstatus": o.runner_status or "NA",
             "log": [STATUS_NAME[x] for x in o.status_log],
-            "cstatus": s.status,
+            "cstatus": self._safes(lambda: s.status),
         }
 
     def visible_orders(self):
@@ -387,7 +401,8 @@ class Recorder:
     def step(self, ev, **args):
         rec = {"ev": ev, "a": args, "trans": self.trans, "reqs": self.reqs, "pkgs": self.pkgs}
         rec["st"] = self.proj() if self.snapshots else {}
-        rec["x"] = self.extras() if self.snapshots else {}
+        if self.want_extras:
+            rec["x"] = self.extras()
         self.trans, self.reqs, self.pkgs = [], [], []
         self.steps.append(rec)
         return rec
@@ -522,6 +537,9 @@ def do_action(rec, strat, market, txn, a):
         if op == "place":
             tl = a.get("t") or ("t_" + a["o"])
             order = rec.orders.get(a["o"])
+            if order is None and a.get("dup"):
+                rec.reqs.append(q)
+                return
             trade = rec.trades.get(tl) if order is None else order.trade
             if trade is None:
                 trade = Trade(
@@ -570,7 +588,7 @@ def do_action(rec, strat, market, txn, a):
                 r = tgt.place_order(order, market_version=_mver(a, market), **kw)
             q["r"] = "ACCEPT" if r else "REFUSE"
         else:
-            order = rec.orders.get(a["o"])
+            order = rec.visible_orders().get(a["o"])
             if order is None:
                 rec.reqs.append(q)
                 return
@@ -701,7 +719,6 @@ def instrument(rec, patches):
                 known = set(rec.orders.keys())
                 mk = self.flumine.markets.markets[order_package.market_id]
                 book = proj_book(mk.market_book)
-                pre = {l: rec.proj_order(rec.orders[l]) for l in labs}
                 err = None
                 try:
                     orig(self, order_package, http_session)
@@ -724,7 +741,6 @@ def instrument(rec, patches):
                         betdelay=int(order_package.bet_delay or 0),
                         mver=order_package._market_version if order_package._market_version is not None else -1,
                         book=book,
-                        pre=pre,
                         err=err or "",
                         bpe=bool(order_package.client.best_price_execution),
                         fullmatch=bool(order_package.client.simulated_full_match),
@@ -772,7 +788,6 @@ def instrument(rec, patches):
 
     def mk_mw(orig):
         def __call__(self, market):
-            pre = {l: rec.proj_order(o) for l, o in rec.visible_orders().items() if o.market_id == market.market_id}
             seen = list(self._runner_removals)
             try:
                 return orig(self, market)
@@ -784,7 +799,6 @@ def instrument(rec, patches):
                     "mw",
                     mid=market.market_id,
                     traded=an,
-                    pre=pre,
                     book=proj_book(market.market_book),
                     mtype=market.market_type or "NA",
                     iso=bool(fconfig.simulated_strategy_isolation),
@@ -938,6 +952,13 @@ def run_scenario(scn, keep_dir=None, snapshots=True, extra_setup=None):
         for c in cl[1:]:
             framework.add_client(c)
         rec.flumine = framework
+
+        class _HQ(list):  # FlumineSimulation.run clears the pending queue after each market / event group
+            def clear(self_):
+                list.clear(self_)
+                rec.step("qclear")
+
+        framework.handler_queue = _HQ()
         instrument(rec, patches)
         strategies = []
         for s in scn["strategies"]:
@@ -991,8 +1012,35 @@ def run_scenario(scn, keep_dir=None, snapshots=True, extra_setup=None):
     return out
 
 
-def strip(trace):
-    """JSON-able copy (drops live objects)"""
+def strip(trace, compact=True):
+    """JSON-able copy (drops live objects).  compact: the per-step states are moved into a table
+    of distinct states (`states`), steps refer to it by index `si` (1-based, for TLA+) and carry
+    the clock separately, so unchanged states are stored once."""
     t = dict(trace)
     t.pop("rec", None)
+    if compact and t.get("steps") and "si" not in t["steps"][0]:
+        table, index, steps = [], {}, []
+        for s in t["steps"]:
+            s = dict(s)
+            st = dict(s.pop("st"))
+            clock = st.pop("clock", -1)
+            key = json.dumps(st, sort_keys=True)
+            if key not in index:
+                table.append(st)
+                index[key] = len(table)
+            s["si"] = index[key]
+            s["clock"] = clock
+            steps.append(s)
+        t["steps"] = steps
+        t["states"] = table
     return t
+
+
+def state_of(trace, i):
+    """state after step i (0-based) of a compacted or plain trace"""
+    s = trace["steps"][i]
+    if "st" in s:
+        return s["st"]
+    st = dict(trace["states"][s["si"] - 1])
+    st["clock"] = s["clock"]
+    return st
